@@ -43,7 +43,7 @@ def mk(rng):
     k = rng.random()
     if k < 0.30:
         tid = rng.choice(list(c09.CAT) + URL_EXT + URL_EXT)
-        base = c09.gen_structured(rng, rng.randrange(len(c09.CAT))) if rng.random() < 0.7 else noise(rng)
+        base = c09.gen_structured(rng, rng.choice(list(c09.CAT))) if rng.random() < 0.7 else noise(rng)
         if tid >= 20 and rng.random() < 0.6:
             base = rng.choice([b'f=1.5&g=-2e10', b'f=nan&g=inf', b'b=%00%FF&c=%F0%9F%98%80', b's=a%20b&t=1,x', b'k=1&u=', b'x=-170141183460469231731687303715884105728&y=340282366920938463463374607431768211455&z=',
                                b'e=A&o=', b'e=B&o=A', b'e=C', b'a=x&b=&v=1,-2,3&w=true,false', b'n=x&o=&ignored=zzz', b'k=v&k2=v2', b'a=b', b'7', b'a=1&a=2', b'=', b'&', b'a', b'a=%', b'a=%F', b'%=%'])
